@@ -33,7 +33,7 @@ def strata(tier):
         ns = {1: [5, 8, 16], 2: [5, 8], 3: [4, 5]}
     else:
         ns = {1: [3, 4, 5, 8, 13, 16, 27, 40], 2: [3, 4, 5, 8, 11, 16], 3: [3, 4, 5, 8, 9, 12]}
-    return [dict(id="D%d-N%d" % (D, N), D=D, N=N) for D in (1, 2, 3) for N in ns[D]]
+    return [dict(id="D%d-N%d" % (D, N), D=D, N=N) for D in (1, 2, 3) for N in ns[D]] + [dict(id="D%d-anyN" % D, D=D, N="any") for D in (1, 2, 3)]
 
 
 def _nontrivial(chan_modes, D):
